@@ -22,6 +22,12 @@ where
     I: Interner,
 {
     fn could_match(&self, interner: I, db: &dyn UnificationDatabase<I>, other: &T) -> bool {
+        #[cfg(chalk_verif)]
+        {
+            if verif_filter_disabled() {
+                return true;
+            }
+        }
         return Zip::zip_with(
             &mut MatchZipper { interner, db },
             Variance::Invariant,
@@ -210,4 +216,12 @@ impl<I: Interner> CouldMatch<DomainGoal<I>> for ProgramClause<I> {
     ) -> bool {
         self.data(interner).could_match(interner, db, other)
     }
+}
+
+/// Verification hook: with the environment variable `CHALK_VERIF_NO_FILTER` set, `could_match`
+/// accepts everything, so that solver answers with and without pre-filtering can be compared.
+#[cfg(chalk_verif)]
+pub fn verif_filter_disabled() -> bool {
+    static DISABLED: std::sync::OnceLock<bool> = std::sync::OnceLock::new();
+    *DISABLED.get_or_init(|| std::env::var_os("CHALK_VERIF_NO_FILTER").is_some())
 }
